@@ -17,8 +17,8 @@ from ..world import SimWorld
 
 LEVEL = "exploration"
 RULE = ("seeded batches of 1..40 jobs (distinct generated pipelines and payloads; most batches 1-8 jobs, a 5% tail up to 40) x "
-        "1..4 workers x enqueue gaps x failing job at a seeded batch position x slow jobs x late workers x one of 6 schedule "
-        "strategies (fair ones only: random walk p in {.02,.1,.3,.6}, bursty). distinct_nontrivial = distinct context-switch-trace hashes among runs in which every job was picked up by "
+        "1..4 workers x enqueue gaps x failing job at a seeded batch position x slow jobs x late workers x one of 9 schedule "
+        "strategies (fair ones only: random walk p in {.02,.1,.3,.6}, bursty, priority-based with periodic re-draw). distinct_nontrivial = distinct context-switch-trace hashes among runs in which every job was picked up by "
         "a worker.")
 REAL_COMPONENTS = ["QueueSemantivaOrchestrator.enqueue/run_forever", "worker_loop", "InMemorySemantivaTransport",
                    "Pipeline + LocalSemantivaOrchestrator + SequentialSemantivaExecutor inside each job"]
@@ -27,7 +27,7 @@ STUB_COMPONENTS = ["queue.Queue / time.sleep / threading primitives seen by the 
 ASSUMPTIONS = ["bounded liveness: once the last job is enqueued and no fault is pending every Future is done within "
                "10 s + 2 s x jobs (+ injected stall time) of virtual time",
                "no pre-emption inside semantiva.core / pipeline execution (a job run is one scheduling step)"]
-REQUIRED_PROBES = ["failing_job", "slow_job", "multi_worker", "late_worker", "batch_ge_10"]
+REQUIRED_PROBES = ["failing_job", "slow_job", "multi_worker", "late_worker", "batch_ge_10", "fire_and_forget_job_mixed_in", "two_failing_jobs"]
 CONFIG = {
     "quick": {"runs": 1500, "budget_s": 170, "timeout_s": 120, "per_fork": 4},
     "thorough": {"runs": 120000, "budget_s": 1600, "timeout_s": 180, "per_fork": 6},
@@ -35,7 +35,7 @@ CONFIG = {
 }
 # The liveness clauses presuppose a fair scheduler; PCT is strict-priority (unfair by design: on this virtual-time
 # model the lowest-priority task starves while others poll), so C15 samples the probabilistically fair strategies only.
-FAIR_STRATEGIES = [s for s in threads.STRATEGIES if s["kind"] != "pct"]
+FAIR_STRATEGIES = [s for s in threads.STRATEGIES if s["kind"] != "pct"]   # random walk, bursty, pct_fair
 TARGETS = ("execution/transport/in_memory.py", "execution/transport/base.py",
            "execution/job_queue/queue_orchestrator.py", "execution/job_queue/worker.py")
 
@@ -44,11 +44,20 @@ def generate(rng: random.Random, tier: str, seed: int) -> dict:
     r = rng.random()
     njobs = rng.randint(1, 8) if r < 0.8 else (rng.randint(9, 16) if r < 0.95 else rng.randint(17, 40))
     jobs = []
-    fail_pos = rng.randrange(njobs) if rng.random() < 0.5 else None
+    # 0..3 failing jobs; when several, often adjacent (two failures reported by one worker back to back)
+    fail_set: set[int] = set()
+    if rng.random() < 0.55:
+        first = rng.randrange(njobs)
+        fail_set.add(first)
+        extra = rng.choice([0, 0, 1, 1, 2])
+        for e in range(extra):
+            fail_set.add((first + 1 + e) % njobs if rng.random() < 0.7 else rng.randrange(njobs))
     for j in range(njobs):
         base = gen.gen_pipeline(rng, max_nodes=4, allow_file_sink=False)
-        job = {"nodes": base["nodes"], "context": base["context"], "init_data": base["init_data"], "gap": rng.choice([0.0, 0.0, 0.01, 0.15, 0.6])}
-        if j == fail_pos:
+        job = {"nodes": base["nodes"], "context": base["context"], "init_data": base["init_data"], "gap": rng.choice([0.0, 0.0, 0.01, 0.15, 0.6]),
+               "no_future": rng.random() < 0.15,            # fire-and-forget job (enqueue without return_future)
+               "ctx_none": rng.random() < 0.6}              # an empty context is passed as context=None
+        if j in fail_set:
             fs = [f for f in gen.applicable_failures(base) if f[0] in ("unresolvable", "type_gate", "undeclared_op", "undeclared_ctx", "unknown_param")]
             if fs:
                 kind, k = rng.choice(fs)
@@ -123,12 +132,13 @@ def execute(sc: dict, seed: int) -> dict:
                     if job["gap"]:
                         threads.sim_sleep(job["gap"])
                     data = None if job["init_data"] is None else FloatDataType(float(job["init_data"]))
-                    futures[i] = orch.enqueue(copy.deepcopy(job["nodes"]), data=data,
-                                              context=ContextType(copy.deepcopy(job["context"])), return_future=True)
+                    ctx_arg = None if (not job["context"] and job.get("ctx_none")) else ContextType(copy.deepcopy(job["context"]))
+                    futures[i] = orch.enqueue(copy.deepcopy(job["nodes"]), data=data, context=ctx_arg,
+                                              return_future=not job.get("no_future"))
                     sched.log("enqueue", i)
                 info["t_last_enqueue"] = sched.now
                 while True:
-                    if all(f.done() for f in futures):
+                    if all(f.done() for f in futures if f is not None):
                         info["t_all_done"] = sched.now
                         break
                     if sched.now - info["t_last_enqueue"] > bound:
@@ -155,6 +165,11 @@ def execute(sc: dict, seed: int) -> dict:
             leftover = len(orch.pending_futures)
             for i, (job, exp, fut) in enumerate(zip(sc["jobs"], expected, futures)):
                 failing = bool(job.get("fail"))
+                if job.get("no_future"):
+                    if fut is not None:
+                        viols.append(oracles.V("result", "future_returned_without_request", f"job {i}"))
+                    picked += 1
+                    continue
                 if fut is None or not fut.done():
                     # "A job whose pipeline raises completes its Future exceptionally instead of leaving the caller waiting forever."
                     # / bounded liveness for ordinary jobs
@@ -167,6 +182,10 @@ def execute(sc: dict, seed: int) -> dict:
                 if failing:
                     if exc is None:
                         viols.append(oracles.V("result", "failing_job_completed_normally", f"job {i} should fail with {exp['exc_type']} but future result={fut.result()!r}"))
+                    elif type(exc).__name__ != exp["exc_type"] or str(exc) != exp["exc_msg"]:
+                        # "with that job's own result ... no cross-talk": the failure reported must be this job's failure
+                        viols.append(oracles.V("result", "failing_job_got_foreign_exception", f"job {i} fails with {exp['exc_type']}: {exp['exc_msg']!r} when run directly, "
+                                               f"its future carries {type(exc).__name__}: {str(exc)!r}"))
                     continue
                 if exc is not None:
                     viols.append(oracles.V("result", "ok_job_completed_exceptionally", f"job {i}: {type(exc).__name__}: {exc}"))
@@ -176,8 +195,9 @@ def execute(sc: dict, seed: int) -> dict:
                 jid = got_ctx.pop("job_id", None)
                 # "each returned Future completes exactly once with the (data, context) obtained by running that job's
                 #  pipeline on that job's payload - the same as running it directly, plus the job-id annotation"
-                if _data_repr(data) != exp["data"] or got_ctx != exp["context"]:
-                    other = [k for k, e2 in enumerate(expected) if e2["ok"] and _data_repr(data) == e2["data"] and got_ctx == e2["context"]]
+                if harness.canon(_data_repr(data)) != harness.canon(exp["data"]) or harness.canon(got_ctx) != harness.canon(exp["context"]):
+                    other = [k for k, e2 in enumerate(expected) if e2["ok"] and harness.canon(_data_repr(data)) == harness.canon(e2["data"])
+                             and harness.canon(got_ctx) == harness.canon(e2["context"])]
                     key = "cross_talk" if other else "wrong_result"
                     viols.append(oracles.V("result", key, f"job {i}: got data={_data_repr(data)} ctx={got_ctx}; direct run gives data={exp['data']} ctx={exp['context']}"
                                            + (f"; equals job {other[0]}'s result" if other else "")))
@@ -196,6 +216,10 @@ def execute(sc: dict, seed: int) -> dict:
             stats["fault.late_worker"] = 1
         if njobs >= 10:
             stats["probe.batch_ge_10"] = 1
+        if any(j.get("no_future") for j in sc["jobs"]) and any(not j.get("no_future") for j in sc["jobs"]):
+            stats["probe.fire_and_forget_job_mixed_in"] = 1
+        if sum(1 for j in sc["jobs"] if j.get("fail")) >= 2:
+            stats["probe.two_failing_jobs"] = 1
         stats["jobs"] = njobs
         stats["steps"] = sched.steps
         stats["switches"] = len(sched.switches)
